@@ -534,6 +534,10 @@ pub fn run_hal(run: &mut Run) {
     run.family("coefficient/fft64-ref|ntt120-ref", rule_v, vcs, |c, rec| cmp_v::<FFT64Ref, NTT120Ref>(c, seed, rec));
     let rule_f = "normalisation / shift kernels on inputs over the full i64 range: 16 values around the wrap points of x - digit and x + carry (i64::MAX, i64::MIN, 2^63 - 2^(b-1) +-1, +-2^62, ...) x every SIMD lane and tail (n = 9) x every ordered pair of values in adjacent limbs (rot x stride) x limb counts up to the reach of a wrapped carry x radices x intra-limb offsets; byte comparison; inputs on which a checked-arithmetic kernel overflows are counted as outside its magnitude domain";
     if host_has_avx() {
+        let rule_n = "every normalisation / shift case of C08 on the big accumulators (small exhaustive digit tuples, boundary classes for radices up to 62, wide i128 accumulators at every offset) on the reference and the AVX backend of a family: result bytes identical";
+        let bigs = |cs: Vec<crate::c08::Case>| -> Vec<crate::c08::Case> { cs.into_iter().filter(|c| c.n.is_power_of_two() && (c.alphabet == "boundary" || (c.b_in <= 2 && c.b_out <= 3 && c.a_size <= 2))).collect() };
+        run.family("normalize_cases/fft64-ref|fft64-avx", rule_n, bigs(crate::c08::cases::<FFT64Ref>(tier)), |c, rec| crate::c08::exec_cmp::<FFT64Ref, FFT64Avx>(c, seed, rec));
+        run.family("normalize_cases/ntt120-ref|ntt120-avx", rule_n, bigs(crate::c08::cases::<NTT120Ref>(tier)), |c, rec| crate::c08::exec_cmp::<NTT120Ref, NTT120Avx>(c, seed, rec));
         let fcs = v_cases_full(tier);
         run.family("coefficient_full_range/fft64-ref|fft64-avx", rule_f, fcs.clone(), |c, rec| cmp_v::<FFT64Ref, FFT64Avx>(c, seed, rec));
         run.family("coefficient_full_range/ntt120-ref|ntt120-avx", rule_f, fcs, |c, rec| cmp_v::<NTT120Ref, NTT120Avx>(c, seed, rec));
@@ -562,7 +566,10 @@ pub fn replay(run: &mut Run, d: &Value) -> bool {
     let pair = fam.split('/').nth(1).unwrap_or("").to_string();
     macro_rules! go {
         ($A:ty, $B:ty) => {{
-            if fam.starts_with("coefficient/") || fam.starts_with("coefficient_full_range/") {
+            if fam.starts_with("normalize_cases/") {
+                let c: crate::c08::Case = serde_json::from_value(d["case"].clone()).unwrap();
+                run.single(&fam, "replay", |rec| crate::c08::exec_cmp::<$A, $B>(&c, seed, rec));
+            } else if fam.starts_with("coefficient/") || fam.starts_with("coefficient_full_range/") {
                 let c: VCase = serde_json::from_value(d["case"].clone()).unwrap();
                 run.single(&fam, "replay", |rec| cmp_v::<$A, $B>(&c, seed, rec));
             } else if fam.starts_with("dft_domain/") {
